@@ -244,17 +244,6 @@ theorem origin_step_invariance (q : Geom ℝ) (b : Base) (m : Mask) (k : Key) (h
 /-! ### the defect repaired by `fix:` commit 20c9772, pinned: assigning the slice mask instead of
 and-ing it resurrects masked-out points -/
 
-/-- `new[data_slices] = new_is_in_data_slice` (the code before the repair) -/
-def getIdxOld (g : Grid) (m : Mask) (ks : List Ix) : Except XErr Mask :=
-  match dataSlices g (ids g.size m) with
-  | .error e => .error e
-  | .ok ext =>
-    match pickAll ks ext with
-    | .error e => .error e
-    | .ok picks =>
-      let sel : List AxisSel := g.axes.zip (ext.zip picks)
-      .ok fun p => if inBox sel p then inPicks sel p else m p
-
 /-- proved counter-example: on a 1×4 map with point 1 masked out, `[0:3]` brings point 1 back -/
 theorem old_getitem_resurrects :
     (getIdxOld ⟨1, 4⟩ (fun p => p != 1) [.slice (some 0) (some 3) none]).map (ids 4) = .ok [0, 1, 2] ∧
